@@ -552,6 +552,7 @@ class Executor:
             e = RaiseExc("AssertionError")
             e.node = node
             raise e
+        self._narrow_none(node.test, True)  # past `assert x is not None` the name denotes the inner value
 
     def stmt_Raise(self, node):
         if node.exc is None:
@@ -1190,6 +1191,9 @@ class Executor:
         if isinstance(v, VFalseOr):
             self.oblige("noraise.iterate_False", node, z3.Not(v.isfalse))
             return self.as_sequence(v.val, node)
+        if isinstance(v, VOptional):
+            self.oblige("noraise.iterate_None", node, z3.Not(v.isnone))
+            return self.as_sequence(v.val, node)
         raise Unsupported(f"iteration over {v.ty}")
 
     def dyn_keys_distinct(self, items):
@@ -1708,8 +1712,49 @@ class Executor:
                 and node.elt.id == gen.target.id
             ):
                 return self.filter_set_comprehension(node, gen, src)
+            if (
+                isinstance(seq, VList)
+                and len(gen.ifs) == 1
+                and isinstance(node.elt, ast.Name)
+                and isinstance(gen.target, ast.Name)
+                and node.elt.id == gen.target.id
+            ):
+                return self.filter_list_comprehension(node, gen, seq)
             raise Unsupported("filtering comprehension of this shape")
         return self.map_comprehension(node, gen, seq)
+
+    def filter_list_comprehension(self, node, gen, seq):
+        """[x for x in xs if c(x)] over a list: first the list B of the condition's values (a map
+        comprehension, so callee postconditions inside c are handled as there), then the result R as
+        THE subsequence of xs at the positions where B holds: index maps fi (R -> xs, strictly
+        increasing, B holds there) and ri (positions of xs where B holds -> R), inverse to each other."""
+        st = self.st
+        cond_node = ast.ListComp(elt=gen.ifs[0], generators=[ast.comprehension(target=gen.target, iter=gen.iter, ifs=[], is_async=0)])
+        ast.copy_location(cond_node, node)
+        ast.fix_missing_locations(cond_node)
+        saved = dict(st.env)
+        gen2 = cond_node.generators[0]
+        # evaluate the condition as truth values, element by element
+        B = self.map_comprehension(ast.ListComp(elt=ast.Call(func=ast.Name(id="bool", ctx=ast.Load()), args=[gen.ifs[0]], keywords=[]), generators=[gen2]), gen2, seq)
+        st.env = saved
+        LT = seq.LT
+        LB = B.LT
+        R = st.fresh_const("filtered", LT.sort)
+        n = self.st.n
+        fi = z3.Function(f"flt{n}!fi", L.Int, L.Int)
+        ri = z3.Function(f"flt{n}!ri", L.Int, L.Int)
+        i, i2, j = z3.Ints(f"_fl{n}_i _fl{n}_i2 _fl{n}_j")
+        st.assume(LT.len(R) <= seq.len())
+        st.assume(L.Forall([i], [LT.at(R, i)], z3.Implies(z3.And(0 <= i, i < LT.len(R)), z3.And(0 <= fi(i), fi(i) < seq.len(), LT.at(R, i) == LT.at(seq.t, fi(i)), LB.at(B.t, fi(i)), ri(fi(i)) == i)), "filter.list.sound"))
+        st.assume(L.Forall([j], [LT.at(seq.t, j)], z3.Implies(z3.And(0 <= j, j < seq.len(), LB.at(B.t, j)), z3.And(0 <= ri(j), ri(j) < LT.len(R), LT.at(R, ri(j)) == LT.at(seq.t, j), fi(ri(j)) == j)), "filter.list.complete"))
+        st.assume(L.Forall([i, i2], [LT.at(R, i), LT.at(R, i2)], z3.Implies(z3.And(0 <= i, i < i2, i2 < LT.len(R)), fi(i) < fi(i2)), "filter.list.order"))
+        # ghost: the list of the source positions kept (a name for fi, usable as a ghost output of the contract)
+        POS = st.fresh_const("filtered_pos", L.LInt.sort)
+        st.assume(L.LInt.len(POS) == LT.len(R))
+        st.assume(L.Forall([i], [L.LInt.at(POS, i)], z3.Implies(z3.And(0 <= i, i < LT.len(R)), z3.And(L.LInt.at(POS, i) == fi(i), 0 <= fi(i), fi(i) < seq.len(), LT.at(R, i) == LT.at(seq.t, fi(i)), LB.at(B.t, fi(i)), ri(fi(i)) == i)), "filter.list.pos"))
+        st.assume(L.Forall([i], [LT.at(R, i)], L.LInt.at(POS, i) == fi(i), "filter.list.pos.r"))
+        st.env["__filter_pos_last"] = VList(POS, TInt)
+        return VList(R, seq.et)
 
     def filter_set_comprehension(self, node, gen, src):
         """[x for x in S if c(x)]  ->  an enumeration of the set { x in S | c(x) }; c must be a
